@@ -1,9 +1,40 @@
 import JL.Lemmas.Monad
+import JL.Lemmas.C11
 /-!
 # C11 — `var` resolves paths through objects, arrays and strings; absent means default
+
+Specification-side definitions (`split`, `rawSegs`, `Plain`, `Indexable`, `agreeOnPath`, `keyPath`, `wholeData`)
+are in `JL/Spec/Path.lean`; helper lemmas in `JL/Lemmas/C11.lean`.
 -/
 namespace JL.Props.C11
-open JL Json Data
+open JL Json Data JL.Spec.Path JL.Lemmas.C11
+
+/-! ## path splitting -/
+
+/-- **`split_spec`.** The accumulator loop `split_with_escape` equals the recursive splitter of the
+specification (a backslash makes the next character literal, unescaped delimiters separate segments, a
+trailing empty segment and a trailing lone backslash are dropped) — for every input and every delimiter. -/
+theorem split_spec (input : Str) (delim : Char) : splitWithEscape input delim = split input delim :=
+  splitWithEscape_eq_split input delim
+
+example : splitWithEscape "a\\.b.c".toList '.' = ["a.b".toList, "c".toList] := by decide
+example : split "a\\.b.c".toList '.' = ["a.b".toList, "c".toList] := by decide
+example : split "a..b.".toList '.' = ["a".toList, [], "b".toList] := by decide
+example : split "a.b\\".toList '.' = ["a".toList, "b".toList] := by decide
+example : split "\\".toList '.' = [] := by decide
+
+/-- a segment without `.` and `\` is its own split -/
+theorem split_plain_segment (s : Str) (h : Plain s) (hne : s ≠ []) : splitWithEscape s '.' = [s] := by
+  rw [split_spec, split_plain s h]; simp [hne]
+
+/-- dotted paths of plain non-empty segments split into exactly those segments -/
+theorem split_join (ps : List Str) (hne : ps ≠ []) (h : ∀ s ∈ ps, Plain s ∧ s ≠ []) :
+    splitWithEscape (joinWith ['.'] ps) '.' = ps := by
+  rw [split_spec, split_joinWith ps hne h]
+
+example : (∀ s ∈ ["a".toList, "0".toList, "-1".toList], Plain s ∧ s ≠ []) := by decide
+
+/-! ## indexing, negative indices from the end -/
 
 /-- non-negative index -/
 theorem get_nonneg {α : Type} (xs : List α) (i : Nat) : Data.get xs (i : Int) = xs[i]? := by
@@ -18,10 +49,168 @@ theorem get_neg {α : Type} (xs : List α) (i : Nat) (hi : 1 ≤ i) :
   simp [h2]
   intro h0; omega
 
+/-- **`get_spec`**: the full case analysis, for every integer -/
+theorem get_spec {α : Type} (xs : List α) (i : Int) :
+    Data.get xs i = (if 0 ≤ i then xs[i.toNat]?
+                     else if i.natAbs ≤ xs.length then xs[xs.length - i.natAbs]? else none) := by
+  simp [Data.get]
+
+/-- for `-len ≤ i < 0` the result is the element `len + i`; nothing below `-len`; nothing at or above `len` -/
+theorem get_from_end {α : Type} (xs : List α) (i : Int) (h1 : -(xs.length : Int) ≤ i) (h2 : i < 0) :
+    Data.get xs i = xs[(xs.length + i).toNat]? := by
+  rw [get_spec]
+  have : ¬ (0 ≤ i) := by omega
+  have h3 : i.natAbs ≤ xs.length := by omega
+  have h4 : xs.length - i.natAbs = ((xs.length : Int) + i).toNat := by omega
+  simp [this, h3, h4]
+
+theorem get_from_end_some {α : Type} (xs : List α) (i : Int) (h1 : -(xs.length : Int) ≤ i) (h2 : i < 0) :
+    ∃ x, Data.get xs i = some x ∧ xs[(xs.length + i).toNat]? = some x := by
+  rw [get_from_end xs i h1 h2]
+  have : ((xs.length : Int) + i).toNat < xs.length := by omega
+  exact ⟨xs[((xs.length : Int) + i).toNat], by simp [this], by simp [this]⟩
+
+theorem get_below {α : Type} (xs : List α) (i : Int) (h : i < -(xs.length : Int)) : Data.get xs i = none := by
+  rw [get_spec]
+  have : ¬ (0 ≤ i) := by omega
+  have h3 : ¬ i.natAbs ≤ xs.length := by omega
+  simp [this, h3]
+
+theorem get_above {α : Type} (xs : List α) (i : Int) (h : (xs.length : Int) ≤ i) : Data.get xs i = none := by
+  rw [get_spec]
+  have : 0 ≤ i := by omega
+  simp [this]
+  exact h
+
+/-- in particular at `i64::MIN` -/
+example : Data.get [1, 2, 3] (-(2 ^ 63 : Int)) = none := by decide +kernel
+example : Data.get [1, 2, 3] (-3) = some 1 ∧ Data.get [1, 2, 3] (-1) = some 3 ∧ Data.get [1, 2, 3] (-4) = none := by
+  decide +kernel
+
+/-! ## one step of the descent -/
+
+/-- through an object: key lookup -/
+theorem step_obj (kvs : List (Str × Json)) (seg : Str) : step (.obj kvs) seg = lookup seg kvs := rfl
+
+/-- through an array: `parse::<i64>` of the segment, then `get` -/
+theorem step_arr (xs : List Json) (seg : Str) : step (.arr xs) seg = (parseI64 seg).bind (Data.get xs) := by
+  simp only [step]; cases parseI64 seg <;> rfl
+
+/-- through a string: `parse::<i64>` of the segment, then `get` on the `Char`s; the result is a one-character string -/
+theorem step_str (s : Str) (seg : Str) :
+    step (.str s) seg = (parseI64 seg).bind (fun i => (Data.get s i).map (fun c => .str [c])) := by
+  simp only [step]; cases parseI64 seg <;> rfl
+
+/-- nothing can be reached through `null`, booleans and numbers -/
+theorem step_scalar (d : Json) (seg : Str) (h : ¬ Indexable d) : step d seg = none :=
+  step_not_indexable d seg h
+
+/-- the segment text read as an index is exact: the decimal text of every `i64` is read back -/
+theorem parse_index (i : Int) (hlo : -(2 ^ 63 : Int) ≤ i) (hhi : i < 2 ^ 63) : parseI64 (intToStr i) = some i :=
+  parseI64_intToStr i hlo hhi
+
+/-- multi-byte characters: indexing is by `Char`, not by byte -/
+example : step (.str "aé€𝄞".toList) "-1".toList = some (.str "𝄞".toList) ∧
+          step (.str "aé€𝄞".toList) "2".toList = some (.str "€".toList) := by decide +kernel
+
+/-! ## composition of paths -/
+
+/-- **`walk_append`.** Walking a concatenated segment list is walking the first, then the second. -/
+theorem walk_append (p q : List Str) (d : Json) : walk (p ++ q) d = (walk p d).bind (walk q) :=
+  JL.Lemmas.C11.walk_append p q d
+
+/-- `get_str_key` in one formula: the whole data for the empty key, else `walk` along the split key, and
+only objects, arrays and strings can be entered -/
+theorem getStrKey_spec (d : Json) (k : Str) :
+    getStrKey d k = if k = [] then some d else if Indexable d then walk (split k '.') d else none :=
+  getStrKey_eq d k
+
+/-- **`path_compose`, string level, general form.** If `p` does not end inside an escape and its last raw
+segment is not empty, and `q` is not the lone backslash, then looking up `p.q` is looking up `p` and then `q`
+in the result. No condition on `d` or on the intermediate value is needed. -/
+theorem path_compose_general (d : Json) (p q : Str) (hp1 : endsEscaped p = false)
+    (hp2 : (rawSegs '.' p).getLast? ≠ some []) (hq : q ≠ ['\\']) :
+    getStrKey d (p ++ '.' :: q) = (getStrKey d p).bind (fun v => getStrKey v q) :=
+  getStrKey_compose d p q hp1 hp2 hq
+
+/-- **`path_compose`** for segments (or dotted paths) without escapes: the exact side condition is `p ≠ ""`.
+`q` may be empty (`"a."` = `"a"`), `d` and the intermediate value may be scalars (both sides are then `none`).
+
+Counterexamples to naive versions (all checked below):
+* `p = ""`: `".a"` has segments `["", "a"]`, it looks up the key `""` first, whereas `getStrKey d ""` is `d`;
+* `p = "a."` (ends in an unescaped dot): `"a..b"` has segments `["a", "", "b"]` but `"a."` alone drops the trailing empty segment;
+* `p = "a\"` (ends inside an escape): the joining dot becomes a literal;
+* `q = "\"`: `"a.\"` is the path `["a"]` and yields a scalar child, while the lone `\` on a scalar is a
+  non-empty key on a non-container and yields nothing. -/
+theorem path_compose (d : Json) (p q : Str) (hp : Plain p) (hne : p ≠ []) (hq : Plain q) :
+    getStrKey d (p ++ '.' :: q) = (getStrKey d p).bind (fun v => getStrKey v q) := by
+  apply path_compose_general d p q (endsEscaped_plain p hp)
+  · rw [rawSegs_plain p hp]; simpa using hne
+  · exact plain_ne_backslash q hq
+
+example : Plain "ab".toList ∧ "ab".toList ≠ [] ∧ Plain "-1".toList := by decide
+-- p = "" fails
+example : let d := Json.obj [("a".toList, .num (.pos 1))]
+    getStrKey d ("".toList ++ '.' :: "a".toList) = none ∧
+    (getStrKey d "".toList).bind (fun v => getStrKey v "a".toList) = some (.num (.pos 1)) := by decide +kernel
+-- p ending in an unescaped dot fails
+example : let d := Json.obj [("a".toList, .obj [("b".toList, .num (.pos 1))])]
+    getStrKey d ("a.".toList ++ '.' :: "b".toList) = none ∧
+    (getStrKey d "a.".toList).bind (fun v => getStrKey v "b".toList) = some (.num (.pos 1)) := by decide +kernel
+-- p ending inside an escape fails
+example : let d := Json.obj [("a".toList, .obj [("b".toList, .num (.pos 1))])]
+    getStrKey d ("a\\".toList ++ '.' :: "b".toList) = none ∧
+    (getStrKey d "a\\".toList).bind (fun v => getStrKey v "b".toList) = some (.num (.pos 1)) := by decide +kernel
+-- q = "\" fails
+example : let d := Json.obj [("a".toList, .num (.pos 1))]
+    getStrKey d ("a".toList ++ '.' :: "\\".toList) = some (.num (.pos 1)) ∧
+    (getStrKey d "a".toList).bind (fun v => getStrKey v "\\".toList) = none := by decide +kernel
+
+/-- a dotted path of plain non-empty segments walks exactly those segments -/
+theorem dotted_path (d : Json) (ps : List Str) (hne : ps ≠ []) (h : ∀ s ∈ ps, Plain s ∧ s ≠ []) :
+    getStrKey d (joinWith ['.'] ps) = if Indexable d then walk ps d else none := by
+  rw [getStrKey_spec, split_joinWith ps hne h]
+  simp [joinWith_ne_nil ps hne (fun s hs => (h s hs).2)]
+
+/-! ## integer keys -/
+
+/-- **`int_key`** on an object: the key is the decimal text of the integer -/
+theorem int_key_obj (kvs : List (Str × Json)) (i : Int) :
+    getKey (.obj kvs) (.number i) = lookup (intToStr i) kvs := by
+  simp [getKey, getStrKey, intToStr_ne_nil, split_intToStr, walk_single, step]
+
+/-- the fact `int_key_obj` rests on: the decimal text contains no dot and no backslash -/
+theorem int_text_single_segment (i : Int) : splitWithEscape (intToStr i) '.' = [intToStr i] := split_intToStr i
+
+/-- on an array: the index -/
+theorem int_key_arr (xs : List Json) (i : Int) : getKey (.arr xs) (.number i) = Data.get xs i := rfl
+
+/-- on a string: the index, by `Char` -/
+theorem int_key_str (s : Str) (i : Int) :
+    getKey (.str s) (.number i) = (Data.get s i).map (fun c => .str [c]) := rfl
+
+theorem int_key_scalar (d : Json) (i : Int) (h : ¬ Indexable d) : getKey d (.number i) = none := by
+  cases d <;> simp_all [getKey, Indexable]
+
+/-- an `i64` key and the string key of its decimal text are the same key, on every data value -/
+theorem int_key_is_text_key (d : Json) (i : Int) (hlo : -(2 ^ 63 : Int) ≤ i) (hhi : i < 2 ^ 63) :
+    getKey d (.number i) = getKey d (.string (intToStr i)) :=
+  getKey_number_eq d i hlo hhi
+
+example : getKey (.obj [("-7".toList, .bool true)]) (.number (-7)) = some (.bool true) := by decide +kernel
+
+/-! ## the whole data -/
+
 /-- null, the empty string and the operand-less form return the entire data -/
 theorem whole_data_null (d : Json) : getKey d .null = some d := rfl
 theorem whole_data_empty (d : Json) : getKey d (.string []) = some d := rfl
 theorem whole_data_noargs (d : Json) : var d [] = ⟨[], .ok d⟩ := rfl
+
+theorem whole_data (d : Json) : var d [] = ⟨[], .ok d⟩ ∧ (∀ rest, var d (.null :: rest) = ⟨[], .ok d⟩) ∧
+    (∀ rest, var d (.str [] :: rest) = ⟨[], .ok d⟩) := by
+  refine ⟨rfl, fun _ => rfl, fun _ => rfl⟩
+
+/-! ## defaults -/
 
 /-- a value that is present — even null — is returned in preference to the default -/
 theorem present_wins (d k dflt v : Json) (key : Key) (hk : keyOf k = some key) (hv : getKey d key = some v) :
@@ -32,6 +221,112 @@ theorem absent_default (d k dflt : Json) (key : Key) (hk : keyOf k = some key) (
     var d [k, dflt] = ⟨[], .ok dflt⟩ ∧ var d [k] = ⟨[], .ok .null⟩ := by
   unfold var; simp [hk, hv]
 
-example : splitWithEscape "a\\.b.c".toList '.' = ["a.b".toList, "c".toList] := by decide
+/-- **`default_law`** (any number of operands: the default is the second operand, else null; further operands are ignored) -/
+theorem default_law_general (d k : Json) (rest : List Json) (key : Key) (hk : keyOf k = some key) :
+    var d (k :: rest) = ⟨[], .ok ((getKey d key).getD (rest.head?.getD .null))⟩ := by
+  unfold var; simp only [hk]
+  cases getKey d key <;> cases rest <;> rfl
+
+theorem default_law (d k dflt : Json) (key : Key) (hk : keyOf k = some key) :
+    var d [k, dflt] = ⟨[], .ok ((getKey d key).getD dflt)⟩ :=
+  default_law_general d k [dflt] key hk
+
+theorem default_null (d k : Json) (key : Key) (hk : keyOf k = some key) :
+    var d [k] = ⟨[], .ok ((getKey d key).getD .null)⟩ :=
+  default_law_general d k [] key hk
+
+/-- present null beats the default -/
+example : var (.obj [("a".toList, .null)]) [.str "a".toList, .num (.pos 5)] = ⟨[], .ok .null⟩ := by decide +kernel
+example : var (.obj [("a".toList, .null)]) [.str "b".toList, .num (.pos 5)] = ⟨[], .ok (.num (.pos 5))⟩ := by decide +kernel
+
+/-! ## bad keys -/
+
+/-- **`var_bad_key`**: an operand that is not null, a string or an integer representable as `i64` is an error,
+whatever the data and the default -/
+theorem var_bad_key (d k : Json) (rest : List Json) (hk : keyOf k = none) : var d (k :: rest) = ⟨[], .err⟩ := by
+  unfold var; simp [hk]
+
+/-- exactly these operands are bad keys -/
+theorem bad_key_iff (k : Json) :
+    keyOf k = none ↔ (∃ b, k = .bool b) ∨ (∃ xs, k = .arr xs) ∨ (∃ kvs, k = .obj kvs) ∨ (∃ n, k = .num n ∧ n.asI64 = none) :=
+  keyOf_eq_none k
+
+/-- and `var` fails only for them: with a good key it always returns a value -/
+theorem var_ok_iff (d k : Json) (rest : List Json) : (∃ v, var d (k :: rest) = ⟨[], .ok v⟩) ↔ keyOf k ≠ none := by
+  cases hk : keyOf k with
+  | none => simp [var_bad_key d k rest hk]
+  | some key => simp [default_law_general d k rest key hk]
+
+example : keyOf (.num (.pos (2 ^ 63))) = none ∧ keyOf (.num (.flt F64.zero)) = none ∧ keyOf (.bool true) = none := by
+  decide +kernel
+
+/-! ## the lookup as a walk, and the frame property -/
+
+/-- `get_key` is: the whole data for null / `""`, otherwise `walk` along the segments the key denotes, and only
+containers can be entered. (`hk`: an integer key is an `i64`, which `keyOf` guarantees for well-formed numbers.) -/
+theorem getKey_spec (d : Json) (key : Key) (hk : ∀ i, key = .number i → -(2 ^ 63 : Int) ≤ i ∧ i < 2 ^ 63) :
+    getKey d key = if wholeData key then some d else if Indexable d then walk (keyPath key) d else none :=
+  getKey_eq_walk d key hk
+
+/-- the hypothesis `hk` holds for every key obtained from a well-formed JSON value -/
+theorem key_in_range (k : Json) (hwf : k.wf = true) (key : Key) (h : keyOf k = some key) :
+    ∀ i, key = .number i → -(2 ^ 63 : Int) ≤ i ∧ i < 2 ^ 63 :=
+  keyOf_range k hwf key h
+
+/-- **`frame`** for segment lists: trees that agree along the path give the same result -/
+theorem frame_walk (segs : List Str) (d d' : Json) (h : agreeOnPath segs d d') : walk segs d = walk segs d' :=
+  walk_frame segs d d' h
+
+/-- **`frame`** for `get_key` -/
+theorem frame_getKey (key : Key) (hk : ∀ i, key = .number i → -(2 ^ 63 : Int) ≤ i ∧ i < 2 ^ 63)
+    (d d' : Json) (h : agreeOnPath (keyPath key) d d') : getKey d key = getKey d' key :=
+  getKey_frame key hk d d' h
+
+/-- **`frame`** for `var`: parts of the data not named by the path never influence the result
+(value found, default taken, or error) -/
+theorem frame (k : Json) (hwf : k.wf = true) (rest : List Json) (d d' : Json)
+    (h : ∀ key, keyOf k = some key → agreeOnPath (keyPath key) d d') :
+    var d (k :: rest) = var d' (k :: rest) := by
+  cases hk : keyOf k with
+  | none => rw [var_bad_key d k rest hk, var_bad_key d' k rest hk]
+  | some key =>
+    rw [default_law_general d k rest key hk, default_law_general d' k rest key hk,
+      frame_getKey key (key_in_range k hwf key hk) d d' (h key hk)]
+
+/-- two different trees that agree on the path `a.1` (other keys, other elements and the kind of the other
+values all differ) -/
+example :
+    let d  := Json.obj [("a".toList, .arr [.num (.pos 0), .str "x".toList, .null]), ("b".toList, .bool true)]
+    let d' := Json.obj [("a".toList, .arr [.obj [], .str "x".toList]), ("c".toList, .num (.pos 9)), ("z".toList, .null)]
+    d ≠ d' ∧ agreeOnPath (keyPath (.string "a.1".toList)) d d' ∧
+    var d [.str "a.1".toList] = ⟨[], .ok (.str "x".toList)⟩ ∧ var d' [.str "a.1".toList] = ⟨[], .ok (.str "x".toList)⟩ := by
+  refine ⟨by decide +kernel, ?_, by decide +kernel, by decide +kernel⟩
+  have : keyPath (.string "a.1".toList) = ["a".toList, "1".toList] := by decide +kernel
+  rw [this]
+  simp [agreeOnPath, lookup]
+  have : parseI64 ['1'] = some 1 := by decide +kernel
+  simp [this, Data.get]
+
+example : (Json.str "a.1".toList).wf = true := by decide +kernel
+
+/-! ## from the public entry point to `var` -/
+
+/-- `{"var": [operands…]}` that passed the parse phase: the operands are evaluated left to right (computed keys,
+computed defaults), then `var` runs on their values -/
+theorem apply_var (xs : List Json) (d : Json) (hc : check (.obj [("var".toList, .arr xs)]) = true) :
+    apply (.obj [("var".toList, .arr xs)]) d = runList xs d >>= var d :=
+  JL.Lemmas.C11.apply_var xs d hc
+
+/-- with literal operands (anything but a one-key object), at most two: `apply` is `var` on them -/
+theorem apply_var_literals (xs : List Json) (d : Json) (hl : ∀ x ∈ xs, Literal x) (hn : xs.length < 3) :
+    apply (.obj [("var".toList, .arr xs)]) d = var d xs :=
+  JL.Lemmas.C11.apply_var_literals xs d hl hn
+
+example : (∀ x ∈ [Json.str "a.b".toList, .num (.pos 7)], Literal x) := by simp [Literal]
+
+example : apply (.obj [("var".toList, .arr [.str "a.-1".toList, .num (.pos 7)])])
+    (.obj [("a".toList, .arr [.num (.pos 1), .num (.pos 2)])]) = ⟨[], .ok (.num (.pos 2))⟩ := by decide +kernel
+example : apply (.obj [("var".toList, .arr [.str "a.2".toList, .num (.pos 7)])])
+    (.obj [("a".toList, .arr [.num (.pos 1), .num (.pos 2)])]) = ⟨[], .ok (.num (.pos 7))⟩ := by decide +kernel
 
 end JL.Props.C11
